@@ -1,14 +1,14 @@
 SPECIFICATION FairSpec
 CONSTANTS
-  Node <- N4
-  Graphs <- Iso4
+  Node <- N5
+  Graphs <- Chain5
   Alpha = 2
-  MaxTTL = 3
+  MaxTTL = 4
   MaxFinds = 1
   MaxInjects = 1
   MaxExpires = 0
   MaxLosses = 0
-  MaxLinkChanges = 0
+  MaxLinkChanges = 2
   AsBuilt = FALSE
 VIEW DesignView
 INVARIANTS RecordedPathsOK InFlightPathsOK RelaySkipOK BoundedMessages
